@@ -43,6 +43,16 @@ func runTask(tk c18Task, data [][]byte, bits [][]bool) (res c18Result) {
 		}
 	}()
 	d, e := data[tk.Input], bits[tk.Input]
+	if len(e) < 9600 { // short input: keep only what is admissible at this length
+		switch {
+		case tk.Test >= 15:
+			return res
+		case len(e) < minBitsFor(tests[min(tk.Test, 14)], tk.Param) || tests[min(tk.Test, 14)].Key == "maurer" || tests[min(tk.Test, 14)].Key == "rank" || tests[min(tk.Test, 14)].Key == "lincomp":
+			return res
+		case tests[tk.Test].Key == "block" && tk.Param > len(e):
+			return res
+		}
+	}
 	switch tk.Test {
 	case 17: // the rank test with another matrix shape the API accepts (Param = 100*M + Q); only purity is judged, not the value
 		m, q := tk.Param/100, tk.Param%100
@@ -212,6 +222,9 @@ func genC18(t *rapid.T) c18Case {
 	ni := rapid.IntRange(1, 4).Draw(t, "inputs")
 	for i := 0; i < ni; i++ {
 		nb := uniformInt(t, 1200, 4000, "nbytes")
+		if rapid.IntRange(0, 3).Draw(t, "small") == 0 { // short admissible inputs (>= 128 bits): only the tests whose minimum allows it run on them
+			nb = rapid.IntRange(16, 60).Draw(t, "nbytes_small")
+		}
 		c.Inputs = append(c.Inputs, gen.DrawSeq(t, nb*8, []string{"uniform", "uniform", "biased", "markov", "periodic", "sparse", "bytewords"}))
 	}
 	nt := rapid.IntRange(2, 24).Draw(t, "goroutines")
